@@ -269,7 +269,7 @@ func (in *Interp) initPackage(sp *ssa.Package) {
 }
 
 func defaultCfg(name string) *HarnessCfg {
-	return &HarnessCfg{Name: name, EnumCap: 64, Budget: 5_000_000, TimeoutMs: 10000, MaxVirtualNs: int64(30 * 24 * 3600 * time.Second), Samples: 3}
+	return &HarnessCfg{Name: name, EnumCap: 64, Budget: 5_000_000, TimeoutMs: 30000, MaxVirtualNs: int64(30 * 24 * 3600 * time.Second), Samples: 3}
 }
 
 // ---- snapshot of mutable globals ----
